@@ -103,35 +103,59 @@ def run(chk):
              "nn_site applies one boundary rule per axis", floor=10)
     nb = sq.methods.get("nn_bond_dirn")
     chk.require(nb is not None, "SquareLattice.nn_bond_dirn not found")
-    tests = [n for n in nb.node.body if isinstance(n, ast.If) and isinstance(n.body[0], ast.Return)]
-    chk.require(len(tests) >= 4, "nn_bond_dirn: four direction tests expected")
+    s0n, s1n = nb.params[1], nb.params[2]
+
+    def subst(node, env):
+        import copy
+
+        class R(ast.NodeTransformer):
+            def visit_Name(self, n):
+                return ast.Constant(value=env[n.id]) if n.id in env else n
+        return R().visit(copy.deepcopy(node))
+    # direction tests, written either as a sequence of `if ...: return '<label>'` or as a loop over a literal table of
+    # (forward direction, reverse direction, label) rows with one such `if` in its body
+    cases = []     # (report node, test node with constants, label)
+    for n in nb.node.body:
+        if isinstance(n, ast.If) and len(n.body) == 1 and isinstance(n.body[0], ast.Return) and isinstance(n.body[0].value, ast.Constant):
+            cases.append((n, n.test, n.body[0].value.value))
+        elif isinstance(n, ast.For) and len(n.body) == 1 and isinstance(n.body[0], ast.If) and isinstance(n.body[0].body[0], ast.Return):
+            rows = A.literal_seq(n.iter, nb.node, prog.module(GEO).tree)
+            names = A.assigned_names(n.target)
+            if rows is None or not all(isinstance(r_, (tuple, list)) and len(r_) == len(names) for r_ in rows):
+                raise AnalysisError("nn_bond_dirn: table of directions is not a literal")
+            for r_ in rows:
+                env = dict(zip(names, r_))
+                lab = subst(n.body[0].body[0].value, env)
+                cases.append((n, subst(n.body[0].test, env), lab.value if isinstance(lab, ast.Constant) else None))
+    chk.require(len(cases) >= 4, "nn_bond_dirn: four direction tests expected")
     seen = set()
-    for t in tests:
+    for rep, test, label in cases:
         ok, why = False, ""
-        conj = t.test.values if isinstance(t.test, ast.BoolOp) and isinstance(t.test.op, ast.And) else []
+        conj = test.values if isinstance(test, ast.BoolOp) and isinstance(test.op, ast.And) else []
         if len(conj) == 2:
             parsed = []
             for c in conj:
-                if isinstance(c, ast.Compare) and isinstance(c.left, ast.Call) and A.text(c.left.func) == "self.nn_site" \
+                if isinstance(c, ast.Compare) and isinstance(c.left, ast.Call) and A.text(c.left.func) == f"{nb.params[0]}.nn_site" \
                         and len(c.left.args) == 2 and isinstance(c.ops[0], ast.Eq):
-                    parsed.append((A.text(c.left.args[0]), A.literal(c.left.args[1]) if isinstance(c.left.args[1], ast.Constant) else None,
+                    parsed.append((A.text(c.left.args[0]), c.left.args[1].value if isinstance(c.left.args[1], ast.Constant) else None,
                                    A.text(c.comparators[0])))
             if len(parsed) == 2:
+                if parsed[0][0] == s1n:          # reverse test written first
+                    parsed = parsed[::-1]
                 (a0, d0, b0), (a1, d1, b1) = parsed
-                label = t.body[0].value.value if isinstance(t.body[0].value, ast.Constant) else None
-                if (a0, b0, a1, b1) == ("s0", "s1", "s1", "s0") and d0 in OPP:
+                if (a0, b0, a1, b1) == (s0n, s1n, s1n, s0n) and d0 in OPP:
                     seen.add(d0)
                     if d1 != OPP[d0]:
                         why = f"forward test uses '{d0}' but the reverse test uses '{d1}' instead of '{OPP[d0]}'"
                     elif label != OPP[d0] + d0:
-                        why = f"s1 is the '{d0}' neighbour of s0, so the label must be '{OPP[d0] + d0}', not '{label}'"
+                        why = f"{s1n} is the '{d0}' neighbour of {s0n}, so the label must be '{OPP[d0] + d0}', not '{label}'"
                     else:
                         ok = True
                 else:
                     why = "test is not nn_site(s0, X) == s1 and nn_site(s1, opposite X) == s0"
         if not why and not ok:
-            raise AnalysisError(f"nn_bond_dirn: unrecognised test shape at {nb.where(t)}")
-        chk.verdict("Q2", (nb, t), t.test, True if ok else False, why)
+            raise AnalysisError(f"nn_bond_dirn: unrecognised test shape at {nb.where(rep)}")
+        chk.verdict("Q2", (nb, rep), f"{A.text(test)} -> {label!r}", True if ok else False, why)
     chk.verdict("Q2", nb, "all four directions tested", True if seen == set(OPP) else False,
                 f"nn_bond_dirn tests directions {sorted(seen)} only")
     last = nb.node.body[-1]
@@ -172,55 +196,139 @@ def run(chk):
     # nn_site: boundary handling per axis
     nn = sq.methods.get("nn_site")
     chk.require(nn is not None, "SquareLattice.nn_site not found")
+    me = nn.params[0]
+    # coordinate variables: the names unpacked from the site (axis 0 first); period of an axis: self._dims[ax], self.Nx/Ny or a local
+    # unpacked from self._dims at that position
+    coords = None
+    per = {0: {f"{me}._dims[0]", f"{me}.Nx"}, 1: {f"{me}._dims[1]", f"{me}.Ny"}}
+    for n in A.walk_local(nn.node):
+        if isinstance(n, ast.Assign) and isinstance(n.targets[0], ast.Tuple) and len(n.targets[0].elts) == 2:
+            if A.text(n.value) == nn.params[1]:
+                coords = [A.text(e) for e in n.targets[0].elts]
+            if A.text(n.value) in (f"{me}._dims", f"{me}.dims"):
+                for ax_, e in enumerate(n.targets[0].elts):
+                    per[ax_].add(A.text(e))
+    chk.require(coords, "nn_site: unpacking of the site into coordinates not found")
+
+    def outside_test(t, ax):
+        """(coord < 0 or coord >= period) for the coordinate and period of axis `ax`, in either order"""
+        if not (isinstance(t, ast.BoolOp) and isinstance(t.op, ast.Or) and len(t.values) == 2):
+            return False
+        got = set()
+        for c in t.values:
+            if isinstance(c, ast.Compare) and len(c.ops) == 1 and A.text(c.left) == coords[ax]:
+                if isinstance(c.ops[0], ast.Lt) and A.neg_const(c.comparators[0]) == 0:
+                    got.add("low")
+                if isinstance(c.ops[0], ast.GtE) and A.text(c.comparators[0]) in per[ax]:
+                    got.add("high")
+                if isinstance(c.ops[0], ast.Gt) and A.text(c.comparators[0]).replace(" ", "") in {p_ + "-1" for p_ in per[ax]}:
+                    got.add("high")
+        return got == {"low", "high"}
+    nbt = 0
     for n in [x for x in nn.node.body if isinstance(x, ast.If)]:
-        t = A.text(n.test)
-        if "self._periodic[" not in t:
+        t = n.test
+        if not (isinstance(t, ast.BoolOp) and isinstance(t.op, ast.And) and len(t.values) == 2):
             continue
-        ax = 0 if "self._periodic[0]" in t else 1
-        coord = "x" if ax == 0 else "y"
-        other = "y" if ax == 0 else "x"
-        ok = f"{coord} < 0" in t and f"{coord} >= self._dims[{ax}]" in t and f"{other} <" not in t and f"self._dims[{1 - ax}]" not in t
+        letter = [c for c in t.values if isinstance(c, ast.Compare) and A.text(c.left).startswith(f"{me}._periodic[")
+                  and isinstance(c.comparators[0], ast.Constant)]
+        if len(letter) != 1:
+            continue
+        nbt += 1
+        ax = 0 if A.text(letter[0].left) == f"{me}._periodic[0]" else 1
+        rng = [c for c in t.values if c is not letter[0]][0]
+        ok = outside_test(rng, ax)
         chk.verdict("Q2", (nn, n), n.test, True if ok else False,
-                    f"boundary test for axis {ax} must compare `{coord}` with 0 and self._dims[{ax}] (strict lower, inclusive upper bound)")
-        if "== 'p'" in t:
-            body = A.text(n.body)
-            chk.verdict("Q2", (nn, n), n.body[0], True if body.replace(" ", "") == f"{coord}={coord}%self._dims[{ax}]" else False,
-                        f"periodic wrap of axis {ax} must be `{coord} = {coord} % self._dims[{ax}]`")
+                    f"boundary test for axis {ax} must compare `{coords[ax]}` with 0 and the size of axis {ax} (strict lower, inclusive upper bound)")
+        if letter[0].comparators[0].value == "p":
+            b0 = n.body[0]
+            okw = isinstance(b0, ast.Assign) and A.text(b0.targets[0]) == coords[ax] and isinstance(b0.value, ast.BinOp) and isinstance(b0.value.op, ast.Mod) \
+                and A.text(b0.value.left) == coords[ax] and A.text(b0.value.right) in per[ax]
+            chk.verdict("Q2", (nn, n), n.body[0], True if okw else False,
+                        f"periodic wrap of axis {ax} must be `{coords[ax]} = {coords[ax]} % <size of axis {ax}>`")
+    chk.require(nbt >= 3, f"nn_site: {nbt} boundary tests found (3 confirmed by hand)")
     # ---------------------------------------------------------------- Q3
     chk.rule("Q3", "Lattice item access, patches and initialisation use the same key site2index(site); site2index reduces "
              "modulo the periods", floor=8)
     L = prog.cls(GEO, "Lattice")
     gi, si, ap, ini = (L.methods.get(k) for k in ("__getitem__", "__setitem__", "apply_patch", "__init__"))
     chk.require(all((gi, si, ap, ini)), "Lattice.__getitem__/__setitem__/apply_patch/__init__ not found")
-    key = "self._site_data[self.site2index(site)]"
-
     def subs(f, store):
         out = []
         for n in ast.walk(f.node):
-            if isinstance(n, ast.Subscript) and A.text(n.value) == "self._site_data" and isinstance(n.ctx, ast.Store if store else ast.Load):
+            if isinstance(n, ast.Subscript) and A.text(n.value) == f"{f.params[0]}._site_data" and isinstance(n.ctx, ast.Store if store else ast.Load):
                 out.append(n)
         return out
+    sitevar = {id(gi): gi.params[1], id(si): si.params[1]}
+    for n in ast.walk(ap.node):
+        if isinstance(n, ast.For):
+            sitevar[id(ap)] = A.text(n.target)
+    chk.require(id(ap) in sitevar, "apply_patch: loop over the patched sites not found")
     for f, store in ((gi, False), (si, True), (ap, True)):
         ss = subs(f, store)
         chk.require(ss, f"{f.short}: access of self._site_data not found")
+        key = f"{f.params[0]}.site2index({sitevar[id(f)]})"
         for n in ss:
-            chk.verdict("Q3", (f, n), n, True if A.text(n) == key else False,
-                        f"{f.short} indexes _site_data with `{A.text(n.slice)}` instead of `self.site2index(site)`: objects are "
+            chk.verdict("Q3", (f, n), n, True if A.text(n.slice) == key else False,
+                        f"{f.short} indexes _site_data with `{A.text(n.slice)}` instead of `{key}`: objects are "
                         f"stored and looked up under different keys")
-    # patches consulted first with the raw site
-    for f in (gi, si):
-        first = A.strip_docstring(f.node.body)[0]
-        ok = isinstance(first, ast.If) and A.text(first.test) == "site in self._patch"
-        chk.verdict("Q3", (f, first), first.test if isinstance(first, ast.If) else first, True if ok else False,
-                    f"{f.short} does not consult the patch overlay first (`if site in self._patch`)")
-    # initialisation of the container
-    init_ok = any(isinstance(n, ast.Assign) and A.text(n.targets[0]) == "self._site_data" and
-                  A.text(n.value) == "{self.site2index(site): None for site in self.sites()}" for n in ast.walk(ini.node))
+
+    def polarity(test, me_, site_):
+        """+1 for `site in self._patch`, -1 for its negation, None otherwise"""
+        pos = f"{site_} in {me_}._patch"
+        neg = f"{site_} not in {me_}._patch"
+        t = A.text(test)
+        if t == pos:
+            return 1
+        if t in (neg, f"not {pos}", f"not ({pos})"):
+            return -1
+        return None
+    # the patch overlay is consulted with the raw site on every path: item access goes to the patch iff the site is patched
+    for f, store in ((gi, False), (si, True)):
+        me_, site_ = f.params[0], f.params[1]
+        body = A.strip_docstring(f.node.body)
+        paths = []
+        if not store and len(body) == 1 and isinstance(body[0], ast.Return) and isinstance(body[0].value, ast.IfExp):
+            e = body[0].value
+            paths = [([(e.test, True)], {}, e.body), ([(e.test, False)], {}, e.orelse)]
+        else:
+            for conds, stores, ret in A.straightline_paths(body):
+                paths.append((conds, stores, ret.value if ret is not None else None))
+        ok = len(paths) == 2
+        for conds, stores, val in paths:
+            pol = [polarity(t, me_, site_) * (1 if o else -1) for t, o in conds if polarity(t, me_, site_) is not None]
+            if len(pol) != 1:
+                ok = False
+                continue
+            patched = pol[0] == 1
+            want = f"{me_}._patch[{site_}]" if patched else f"{me_}._site_data[{me_}.site2index({site_})]"
+            if store:
+                ok = ok and list(stores) == [want]
+            else:
+                ok = ok and val is not None and A.text(val) == want
+        chk.verdict("Q3", f, f"{f.short}: patched sites go to the patch overlay, all others to _site_data[site2index(site)]", True if ok else False,
+                    f"{f.short} does not consult the patch overlay first with the raw site (`{site_} in {me_}._patch`) on every path")
+    # initialisation of the container: one slot per site2index(site) of the unique sites
+    init_ok = False
+    for n in ast.walk(ini.node):
+        if isinstance(n, ast.Assign) and A.text(n.targets[0]) == f"{ini.params[0]}._site_data" and isinstance(n.value, ast.DictComp):
+            g0 = n.value.generators[0]
+            init_ok = A.text(n.value.key) == f"{ini.params[0]}.site2index({A.text(g0.target)})" and A.text(g0.iter) == f"{ini.params[0]}.sites()" \
+                and A.neg_const(n.value.value) is None and A.text(n.value.value) == "None"
     chk.verdict("Q3", ini, "self._site_data = {self.site2index(site): None for site in self.sites()}", True if init_ok else False,
                 "Lattice.__init__ does not create one slot per site2index(site) of the unique sites")
-    # apply_patch iterates a snapshot and pops what it stores
-    t = A.text(ap.node)
-    chk.verdict("Q3", ap, "apply_patch pops the entry it folds back", True if "= self._patch.pop(site)" in t and "list(self._patch.keys())" in t else False,
+    # apply_patch iterates a snapshot of the patched sites and pops what it stores
+    me_ = ap.params[0]
+    loops = [n for n in ast.walk(ap.node) if isinstance(n, ast.For)]
+    okp = False
+    if len(loops) == 1:
+        it = A.Inliner(ap.node).expand(loops[0].iter)
+        snap = isinstance(it, ast.Call) and A.call_name(it) in ("list", "tuple") and len(it.args) == 1 and \
+            A.text(it.args[0]) in (f"{me_}._patch", f"{me_}._patch.keys()")
+        sv = A.text(loops[0].target)
+        st = [n for n in loops[0].body if isinstance(n, ast.Assign)]
+        okp = snap and len(st) == 1 and A.text(st[0].targets[0]) == f"{me_}._site_data[{me_}.site2index({sv})]" and \
+            A.text(st[0].value) == f"{me_}._patch.pop({sv})"
+    chk.verdict("Q3", ap, "apply_patch pops the entry it folds back", True if okp else False,
                 "apply_patch no longer removes the patch entries it copies into _site_data (or mutates the dict while iterating it)")
     # site2index of each geometry: every use of a coordinate is reduced modulo the period of *its own* axis
     # (or, combined with the other coordinate, modulo a constant: checkerboard parity, sqrt3 x sqrt3 triangular cell);
@@ -317,7 +425,7 @@ def run(chk):
         # the four neighbours compared
         envs = [n for n in ast.walk(ri.node) if isinstance(n, ast.Assign) and A.text(n.targets[0]) == "env"]
         if envs:
-            tx = A.text(envs[0].value)
+            tx = A.text(A.Inliner(ri.node).expand(envs[0].value))
             need = ["(nx - 1, ny)", "(nx, ny - 1)", "(nx + 1, ny)", "(nx, ny + 1)"]
             chk.verdict("Q4", (ri, envs[0]), envs[0], True if all(x in tx for x in need) else False,
                         "the neighbourhood compared does not consist of the four nearest neighbours")
